@@ -84,6 +84,10 @@ func witnessOf(d *pipeline.Design) c01Witness {
 func judgeC01(run *vc.Run, d *pipeline.Design, rejects map[string]int) {
 	run.Eval(1)
 	run.Count("designs_"+d.Status, 1)
+	streaming := hasStreaming(d.Spec)
+	if streaming {
+		run.Count("stream_designs_"+d.Status, 1)
+	}
 	switch d.Status {
 	case "rejected":
 		first := strings.SplitN(d.Errors, "\n", 2)[0]
@@ -141,6 +145,16 @@ func judgeC01(run *vc.Run, d *pipeline.Design, rejects map[string]int) {
 		return
 	}
 	run.Count("designs_compiled", 1)
+	if streaming {
+		run.Count("stream_designs_compiled", 1)
+		for _, sv := range d.Spec.Services {
+			for _, m := range sv.Methods {
+				if m.Stream != "" && m.HTTP != nil {
+					run.Count("stream_methods_compiled_"+m.Stream, 1)
+				}
+			}
+		}
+	}
 	run.Count("files_generated", len(d.Sums))
 	run.Distinct(d.Spec.Signature())
 	for _, f := range d.Spec.Features {
@@ -152,6 +166,18 @@ func judgeC01(run *vc.Run, d *pipeline.Design, rejects map[string]int) {
 			run.Seen("feature_pairs", fs[i]+"+"+fs[j])
 		}
 	}
+}
+
+// hasStreaming reports whether a spec has an HTTP streaming (websocket) method.
+func hasStreaming(sp *spec.Spec) bool {
+	for _, sv := range sp.Services {
+		for _, m := range sv.Methods {
+			if m.Stream != "" && m.HTTP != nil {
+				return true
+			}
+		}
+	}
+	return false
 }
 
 func firstLine(s string) string { return strings.SplitN(strings.TrimSpace(s), "\n", 2)[0] }
@@ -338,6 +364,19 @@ func c01Trigger(sp *spec.Spec, role, dg string) string {
 				}
 			}
 		}
+	case strings.HasPrefix(role, "gen/http/") && (strings.HasSuffix(role, "/types.go") || strings.HasSuffix(role, "/encode_decode.go")) &&
+		((has("undefined:") || has("!= nil (mismatched types") || has("cannot indirect")) && has("StreamingBody") || has("undefined:") && streamPayloadUnionName(sp, dg)):
+		// the streaming body never goes through makeHTTPType (findings/C01-stream-body-http-type): a StreamingPayload
+		// that contains a union or an attribute of a primitive alias type
+		if streamPayloadHas(sp, func(t *spec.Type) bool {
+			if t.Kind == spec.Union {
+				return true
+			}
+			ut := sp.Type(t.Ref)
+			return t.Kind == spec.Ref && ut != nil && ut.Kind == "alias"
+		}) {
+			return "streaming-payload-union-or-alias"
+		}
 	case strings.HasPrefix(role, "cmd/") && has("undefined: httpPortF"):
 		// goa example for an API without any HTTP endpoint (golden server-sercice-for-only-grpc)
 		for _, sv := range sp.Services {
@@ -353,4 +392,70 @@ func c01Trigger(sp *spec.Spec, role, dg string) string {
 		return "example-main-of-grpc-only-api"
 	}
 	return ""
+}
+
+// streamPayloadHas reports whether the StreamingPayload of some HTTP streaming method reaches (through
+// attributes, elements, keys and user types) a type satisfying pred.
+func streamPayloadHas(sp *spec.Spec, pred func(t *spec.Type) bool) bool {
+	seen := map[string]bool{}
+	var walk func(t *spec.Type) bool
+	walk = func(t *spec.Type) bool {
+		if t == nil {
+			return false
+		}
+		if pred(t) {
+			return true
+		}
+		switch t.Kind {
+		case spec.Ref:
+			if seen[t.Ref] {
+				return false
+			}
+			seen[t.Ref] = true
+			if ut := sp.Type(t.Ref); ut != nil {
+				return walk(ut.Def)
+			}
+		case spec.Array, spec.Map:
+			if t.Key != nil && walk(t.Key.Type) {
+				return true
+			}
+			return t.Elem != nil && walk(t.Elem.Type)
+		case spec.Object, spec.Union:
+			for _, a := range t.Attrs {
+				if walk(a.Type) {
+					return true
+				}
+			}
+		}
+		return false
+	}
+	for _, sv := range sp.Services {
+		for _, m := range sv.Methods {
+			if m.Stream != "" && m.HTTP != nil && m.StreamP != nil && walk(m.StreamP.Type) {
+				return true
+			}
+		}
+	}
+	return false
+}
+
+// streamPayloadUnionName reports whether an "undefined: X" diagnostic names the Go type of a union
+// attribute reachable from a StreamingPayload (the union interface itself carries no StreamingBody suffix).
+func streamPayloadUnionName(sp *spec.Spec, dg string) bool {
+	i := strings.LastIndex(dg, "undefined: ")
+	if i < 0 {
+		return false
+	}
+	name := spec.Norm(strings.TrimSpace(dg[i+len("undefined: "):]))
+	return streamPayloadHas(sp, func(t *spec.Type) bool {
+		if t.Kind != spec.Object {
+			return false
+		}
+		for _, a := range t.Attrs {
+			if a.Type.Kind == spec.Union && spec.Norm(a.Name) == name {
+				return true
+			}
+		}
+		return false
+	})
 }
